@@ -14,7 +14,12 @@ import (
 // construction path must classify an address as internal exactly when its first byte is the location's zone prefix,
 // and the ledger must be the high bit of the second byte. (A finite table, evaluated once per run; the rest of C16
 // is decided on simulated state.)
+// fixedLocationFinding holds the first occurrence, in the current run, of the known decoder behaviour recorded as
+// C16-decoders-fixed-location (reported once, at the end of the run, so that the other oracles still run).
+var fixedLocationFinding string
+
 func addressTable(fail func(class, witness, detail string)) {
+	fixedLocationFinding = ""
 	locs := []common.Location{{0, 0}, {0, 1}, {0, 2}, {1, 0}, {1, 1}, {2, 2}}
 	var addrs [][20]byte
 	for _, first := range []byte{0x00, 0x01, 0x02, 0x10, 0x11, 0x22, 0xff} {
@@ -71,6 +76,49 @@ func addressTable(fail func(class, witness, detail string)) {
 			}
 			if !check("HexToAddress", common.HexToAddress(fmt.Sprintf("0x%x", b), loc)) {
 				return
+			}
+			// the decoders that get no location from their caller (JSON, text, RLP)
+			for _, dp := range []struct {
+				name string
+				dec  func() (common.Address, error)
+			}{
+				{"UnmarshalJSON", func() (a common.Address, err error) {
+					err = a.UnmarshalJSON([]byte(fmt.Sprintf("\"0x%x\"", b)))
+					return
+				}},
+				{"UnmarshalText", func() (a common.Address, err error) {
+					err = a.UnmarshalText([]byte(fmt.Sprintf("0x%x", b)))
+					return
+				}},
+				{"DecodeRLP", func() (a common.Address, err error) {
+					enc, e := rlp.EncodeToBytes(b[:])
+					if e != nil {
+						return a, e
+					}
+					err = rlp.DecodeBytes(enc, &a)
+					return
+				}},
+			} {
+				a, err := dp.dec()
+				if err != nil {
+					continue
+				}
+				_, ierr := a.InternalAddress()
+				if (ierr == nil) != wantInternal {
+					if (ierr == nil) == (b[0] == (common.Location{0, 0}).BytePrefix()) {
+						// classified as a node at location 0-0 would: the decoder has no way to learn the node's location
+						if fixedLocationFinding == "" {
+							fixedLocationFinding = fmt.Sprintf("address %x decoded by %s at node location %v is classified internal=%v (what a node at 0-0 would say); its first byte says internal=%v", b, dp.name, loc, ierr == nil, wantInternal)
+						}
+						continue
+					}
+					fail("address-classification", "path="+dp.name, fmt.Sprintf("address %x at node location %v: %s classifies it internal=%v, its first byte says internal=%v", b, loc, dp.name, ierr == nil, wantInternal))
+					return
+				}
+				if !bytes.Equal(a.Bytes(), b[:]) {
+					fail("address-classification", "path="+dp.name+" bytes", fmt.Sprintf("address %x came back as %x through %s", b, a.Bytes(), dp.name))
+					return
+				}
 			}
 			// protobuf
 			pa := common.BytesToAddress(b[:], loc).ProtoEncode()
